@@ -1,7 +1,14 @@
 //! Engine `subhist` (C04, C06): server-side subscription histories on a REAL `jsonrpsee_server::Server`.
 //!
 //! One input line = one history:
-//!   `K<cap> C<nconns> step step ...`        (steps are comma-separated tokens, see `parse_step`)
+//!   `[E<server|tower>] K<cap> C<nconns> step step ...`        (steps are comma-separated tokens, see `parse_step`)
+//!   E = the ENTRY POINT the server is assembled through (default `server`):
+//!     server  `Server::builder().set_config(..).set_rpc_middleware(..).build(addr)` + `Server::start(module)`
+//!     tower   `Server::builder()...to_service_builder()`: ONE `TowerServiceBuilder` per history (same config: cap, id
+//!             provider, the abandon middleware), CLONED for every accepted TCP connection (`.clone().build(methods,
+//!             stop_handle)`), each connection served from the harness's own accept loop with
+//!             `serve_with_graceful_shutdown` (the shape of examples/jsonrpsee_as_service.rs); `stop` = the
+//!             `ServerHandle` of `stop_channel()`.  Steps and outputs are the same.
 //!   sub,c,req | uns,c,req,target | acc,s | rej,s,code | cl,s,src,k | dr,s,k | snd,s,k,x | tsnd,s,k,x | isc,s,k |
 //!   ret,s,n|m|e,x | ab,s,k|d (abandon the subscribe call of s) | dp,s (drop the pending sink unanswered) | cd,c | stop
 //! One output line = the ordered observations, as JSON with sorted keys:
@@ -40,13 +47,14 @@ use jsonrpsee_core::error::SubscriptionError;
 use jsonrpsee_core::middleware::{Batch, Notification, RpcServiceBuilder, RpcServiceT};
 use jsonrpsee_core::traits::IdProvider;
 use jsonrpsee_server::{
-	ConnectionGuard, MethodResponse, PendingSubscriptionSink, RpcModule, Server, ServerConfig, ServerHandle,
-	SubscriptionCloseResponse, SubscriptionMessage, SubscriptionSink,
+	ConnectionGuard, MethodResponse, Methods, PendingSubscriptionSink, RpcModule, Server, ServerConfig, ServerHandle,
+	SubscriptionCloseResponse, SubscriptionMessage, SubscriptionSink, serve_with_graceful_shutdown, stop_channel,
 };
 use jsonrpsee_types::{ErrorObject, Request, SubscriptionId};
 use serde_json::Value;
 use tokio::sync::{mpsc, oneshot};
 use tokio::time::{Instant, sleep, timeout};
+use tower::Service;
 
 const ID_BASE: u64 = 1000;
 const BARRIER_BASE: u64 = 1_000_000;
@@ -724,7 +732,14 @@ fn parse_step(tok: &str) -> Option<Step> {
 	})
 }
 
-async fn run_case(cap: u32, nconns: usize, steps: Vec<Step>) -> String {
+/// How the server is assembled (script token `E<server|tower>`).
+#[derive(Debug, Clone, Copy, PartialEq)]
+enum Entry {
+	Server,
+	Tower,
+}
+
+async fn run_case(entry: Entry, cap: u32, nconns: usize, steps: Vec<Step>) -> String {
 	let (reg_tx, reg_rx) = mpsc::unbounded_channel();
 	let ctl = Arc::new(Ctl {
 		next: AtomicUsize::new(0),
@@ -760,21 +775,61 @@ async fn run_case(cap: u32, nconns: usize, steps: Vec<Step>) -> String {
 		.max_subscriptions_per_connection(cap)
 		.set_id_provider(CountingIds(AtomicU64::new(0)))
 		.build();
-	let mut server = None;
-	for attempt in 0..5u64 {
-		let mw_ctl = ctl.clone();
-		let mw = RpcServiceBuilder::new().layer_fn(move |service| Abandon { service, ctl: mw_ctl.clone() });
-		match timeout(REQ_WAIT, Server::builder().set_config(cfg.clone()).set_rpc_middleware(mw).build("127.0.0.1:0")).await {
-			Ok(Ok(s)) => {
-				server = Some(s);
-				break;
+	let (addr, handle) = match entry {
+		Entry::Server => {
+			let mut server = None;
+			for attempt in 0..5u64 {
+				let mw_ctl = ctl.clone();
+				let mw = RpcServiceBuilder::new().layer_fn(move |service| Abandon { service, ctl: mw_ctl.clone() });
+				match timeout(REQ_WAIT, Server::builder().set_config(cfg.clone()).set_rpc_middleware(mw).build("127.0.0.1:0")).await {
+					Ok(Ok(s)) => {
+						server = Some(s);
+						break;
+					}
+					_ => sleep(Duration::from_millis(20 * (attempt + 1))).await,
+				}
 			}
-			_ => sleep(Duration::from_millis(20 * (attempt + 1))).await,
+			let Some(server) = server else { return r#"{"fatal":"bind"}"#.into() };
+			let addr = server.local_addr().unwrap();
+			(addr, server.start(module))
 		}
-	}
-	let Some(server) = server else { return r#"{"fatal":"bind"}"#.into() };
-	let addr = server.local_addr().unwrap();
-	let handle = server.start(module);
+		Entry::Tower => {
+			let mut listener = None;
+			for attempt in 0..5u64 {
+				match tokio::net::TcpListener::bind("127.0.0.1:0").await {
+					Ok(l) => {
+						listener = Some(l);
+						break;
+					}
+					_ => sleep(Duration::from_millis(20 * (attempt + 1))).await,
+				}
+			}
+			let Some(listener) = listener else { return r#"{"fatal":"bind"}"#.into() };
+			let addr = listener.local_addr().unwrap();
+			let (stop_handle, server_handle) = stop_channel();
+			let mw_ctl = ctl.clone();
+			let mw = RpcServiceBuilder::new().layer_fn(move |service| Abandon { service, ctl: mw_ctl.clone() });
+			// ONE builder per history; every accepted TCP connection gets a service built from a CLONE of it
+			let svc_builder = Server::builder().set_config(cfg.clone()).set_rpc_middleware(mw).to_service_builder();
+			let methods: Methods = module.into();
+			tokio::spawn(async move {
+				loop {
+					let sock = tokio::select! {
+						r = listener.accept() => match r { Ok((s, _)) => s, Err(_) => continue },
+						_ = stop_handle.clone().shutdown() => break,
+					};
+					let _ = sock.set_nodelay(true);
+					let conn_svc = svc_builder.clone().build(methods.clone(), stop_handle.clone());
+					let svc = tower::service_fn(move |req: http::Request<hyper::body::Incoming>| {
+						let mut conn_svc = conn_svc.clone();
+						async move { conn_svc.call(req).await }.boxed()
+					});
+					tokio::spawn(serve_with_graceful_shutdown(sock, svc, stop_handle.clone().shutdown()));
+				}
+			});
+			(addr, server_handle)
+		}
+	};
 
 	let (ev_tx, ev_rx) = mpsc::unbounded_channel();
 	let mut h = H {
@@ -863,9 +918,16 @@ async fn run_case(cap: u32, nconns: usize, steps: Vec<Step>) -> String {
 fn handle_line(line: &str) -> String {
 	let mut cap = 0u32;
 	let mut nconns = 1usize;
+	let mut entry = Entry::Server;
 	let mut steps = Vec::new();
 	for tok in line.split_whitespace() {
-		if let Some(k) = tok.strip_prefix('K') {
+		if let Some(e) = tok.strip_prefix('E') {
+			entry = match e {
+				"server" => Entry::Server,
+				"tower" => Entry::Tower,
+				_ => return r#"{"fatal":"bad-entry"}"#.into(),
+			};
+		} else if let Some(k) = tok.strip_prefix('K') {
 			match k.parse() {
 				Ok(k) => cap = k,
 				Err(_) => return r#"{"fatal":"bad-cap"}"#.into(),
@@ -884,7 +946,7 @@ fn handle_line(line: &str) -> String {
 	}
 	let rt = tokio::runtime::Builder::new_current_thread().enable_all().build().unwrap();
 	let out = rt.block_on(async move {
-		match timeout(Duration::from_secs(60), run_case(cap, nconns, steps)).await {
+		match timeout(Duration::from_secs(60), run_case(entry, cap, nconns, steps)).await {
 			Ok(s) => s,
 			Err(_) => r#"{"fatal":"case-timeout"}"#.into(),
 		}
